@@ -75,3 +75,13 @@ func VV(m MaybeFloat) Float {
 //@ func (Properties).GetFontWeight
 //@   props C04
 //@   pure refs
+
+// constructors
+//@ func NewDim
+//@   props C08 C04
+//@   nopanic
+//@   inline
+//@ func PercToD
+//@   props C08 C04
+//@   nopanic
+//@   inline
